@@ -14,6 +14,15 @@ import (
 // sanitizerForContext returns an ordered list of function names that will be called to
 // sanitize data values found in the HTML context defined by c.
 func sanitizerForContext(c context) ([]string, error) {
+	s, err := sanitizerForNamedContext(c)
+	if err == nil && (c.element.split || c.element.attrSplit || c.attr.split) {
+		// The sanitizers were chosen for a name that a browser does not see.
+		return nil, fmt.Errorf("actions must not occur in a tag whose element or attribute name is split by a template node")
+	}
+	return s, err
+}
+
+func sanitizerForNamedContext(c context) ([]string, error) {
 	switch c.state {
 	case stateTag, stateAttrName, stateAfterName:
 		return nil, fmt.Errorf("actions must not affect element or attribute names")
